@@ -16,6 +16,25 @@ package yaml
 //@   ensures [C12:empty-on-error] result1 != nil ==> result0 == ""
 
 //@ func (y *Yaml) Get(key any) *Yaml
-//@   requires y != nil
+//@   requires y != nil && deref(y).data != nil
 //@   ensures [C12:wrapper] result != nil
-//@   ensures-assumed [C15:A-GET] ref(deref(result).data) == yamlValueFor(ref(deref(y).data), key)
+//@   ensures-assumed [C15:A-PURE] ref(deref(result).data) == yamlValueFor(ref(deref(y).data), key)
+//@   ensures [C15:first-matching-key] forall j int :: (0 <= j && j + 1 < len(old(deref(deref(y).data).Content)) && j % 2 == 0 && old(deref(deref(deref(y).data).Content[j]).Kind) == 8 && box(string, old(deref(deref(deref(y).data).Content[j]).Value)) == key && (forall k int :: (0 <= k && k < j && k % 2 == 0) ==> !(old(deref(deref(deref(y).data).Content[k]).Kind) == 8 && box(string, old(deref(deref(deref(y).data).Content[k]).Value)) == key))) ==> deref(result).data == old(deref(deref(y).data).Content[j + 1])
+//@   ensures [C15:absent-key] (forall j int :: (0 <= j && j + 1 < len(old(deref(deref(y).data).Content)) && j % 2 == 0) ==> !(old(deref(deref(deref(y).data).Content[j]).Kind) == 8 && box(string, old(deref(deref(deref(y).data).Content[j]).Value)) == key)) ==> deref(result).data == nil
+//@   loop 1 /* for i := 0; i + 1 < len(y.data.Content); i += 2 */
+//@     invariant [C15] i >= 0 && i % 2 == 0 && (forall k int :: (0 <= k && k < i && k % 2 == 0) ==> !(old(deref(deref(deref(y).data).Content[k]).Kind) == 8 && box(string, old(deref(deref(deref(y).data).Content[k]).Value)) == key))
+
+//@ func (y *Yaml) GetArraySize() (int, error)
+//@   requires y != nil && deref(y).data != nil
+//@   ensures [C15:size] (deref(deref(y).data).Kind == 2 ==> (result1 == nil && result0 == len(deref(deref(y).data).Content))) && (deref(deref(y).data).Kind != 2 ==> result1 != nil)
+
+//@ func (y *Yaml) Array() ([]*Yaml, error)
+//@   requires y != nil
+//@   ensures [C15:elements-in-order] (deref(y).data != nil && deref(deref(y).data).Kind == 2) ==> (result1 == nil && len(result0) == len(deref(deref(y).data).Content) && (forall j int :: 0 <= j && j < len(result0) ==> (result0[j] != nil && deref(result0[j]).data == deref(deref(y).data).Content[j])))
+//@   ensures [C15:not-a-sequence] !(deref(y).data != nil && deref(deref(y).data).Kind == 2) ==> result1 != nil
+//@   loop 1 /* for _, n := range y.data.Content */
+//@     invariant [C15] len(acc) == #i && (forall j int :: 0 <= j && j < #i ==> (acc[j] != nil && ref(acc[j]) <= alloc && deref(acc[j]).data == deref(deref(y).data).Content[j]))
+
+//@ func (y *Yaml) GetIndex(index int) *Yaml
+//@   requires y != nil
+//@   ensures [C15:element-or-not-found] result != nil && (((deref(y).data != nil && deref(deref(y).data).Kind == 2 && 0 <= index && index < len(deref(deref(y).data).Content)) ==> deref(result).data == deref(deref(y).data).Content[index]))
